@@ -39,8 +39,12 @@ def strategy(tier):
         'front': st.fixed_dictionaries({'mode': st.just('pause'), 'n_raw': st.integers(0, 900)})})
     unp = st.fixed_dictionaries({
         'kind': st.just('p_remote'), 'scenario': st.just('persist'),
-        'items': st.builds(lambda a, b: a + ['UNPICKLABLE'] + b, st.lists(st.sampled_from([1, 2]), max_size=2), st.lists(st.sampled_from([3, 4]), max_size=2)),
-        'close': st.booleans(), 'pipe': st.sampled_from(['default', 'supplied']), 'inject': st.just({'mode': 'unpicklable_partial_result'})})
+        'items': st.builds(lambda a, u, b: a + [u] + b, st.lists(st.sampled_from([1, 2]), max_size=2), st.sampled_from(['UNPICKLABLE', 'UNSENDABLE']), st.lists(st.sampled_from([3, 4]), max_size=2)),
+        'close': st.booleans(), 'pipe': st.sampled_from(['default', 'supplied']), 'consumer': st.sampled_from(['late', 'early']), 'inject': st.just({'mode': 'unpicklable_partial_result'})})
+    unp2 = st.fixed_dictionaries({
+        'kind': st.just('p_process'), 'scenario': st.just('persist'),
+        'items': st.builds(lambda a, b: a + ['UNSENDABLE'] + b, st.lists(st.sampled_from([1, 2]), max_size=2), st.lists(st.sampled_from([3, 4]), max_size=2)),
+        'close': st.booleans(), 'pipe': st.sampled_from(['default', 'supplied']), 'consumer': st.sampled_from(['late', 'early']), 'inject': st.just({'mode': 'unpicklable_partial_result'})})
     # a child that never answers its k-th item and swallows the termination exception: only the forced part of terminate() ends it
     forced = st.fixed_dictionaries({
         'kind': st.sampled_from(['p_process', 'p_remote', 'p_remote']), 'scenario': st.just('persist'),
@@ -51,7 +55,7 @@ def strategy(tier):
     vanished = st.fixed_dictionaries({
         'vanished_host': st.just(True), 'kind': st.just('p_remote'), 'answers': st.integers(0, 3), 'more': st.integers(0, 2), 'ctrl': st.sampled_from(['rst', 'fin']),
         'pipe': st.sampled_from(['default', 'supplied']), 'consumer': st.sampled_from(['late', 'early']), 'term_timeout': st.sampled_from([0, 0.3, 1])})
-    return st.one_of(_child_strategy(), _child_strategy(), _child_strategy(), fwd, unp, forced, vanished)
+    return st.one_of(_child_strategy(), _child_strategy(), _child_strategy(), fwd, unp, unp2, forced, vanished)
 
 
 def _child_strategy():
